@@ -25,6 +25,27 @@ CLAIMED = {
         note='sequential consistency; fewer than 2^32 uses per run; single use site per engine (static facts re-checked each run); stub std::atomic trusted',
         technique='CBMC function contracts (DFCC) on extracted C++ + rely/guarantee ghost monitor',
         design='DESIGN.md §3 C22'),
+    'C18': dict(
+        text='Partial. Proof, for all 2^64 results std::stoul can produce (and all stoi results), that the numeric tail of the real '
+             'RamUnsignedFromString / RamSignedFromString returns normally exactly when the parsed value is representable in the 32-bit column '
+             'type and then returns exactly that value with the position the std function reported (+2 for a stripped 0b); and that '
+             'ReadStreamCSV::readRamUnsigned returns the value RamUnsignedFromString produced. Loop-free, full-width symbolic inputs: complete for '
+             'these functions. NOT covered: prefix/base detection, completeness check, floats, records/ADTs, error reporting, crash/hang freedom '
+             '(std::string / stream code outside CBMC\'s C++ front end).',
+        note='assumed contracts of std::stoul/stoi (value of longest valid prefix or throw); opaque std::string stub; slicing of the function at the '
+             '`tmp` declaration validated syntactically each run; RAM_DOMAIN_SIZE=32',
+        technique='CBMC function contracts (DFCC) on mechanically sliced C++ function tails, full-domain symbolic inputs',
+        design='DESIGN.md §3 C18'),
+    'C08': dict(
+        text='Partial. Proof, for every bound mask and every pair of 32-bit values, that the real EquivalenceRelation::lower_bound (interpreter '
+             'path, under the caller\'s MIN_RAM_SIGNED encoding of unbound columns) and getBoundaries<0|1|2> (compiled path) return the range '
+             'the property demands (all pairs / pairs with that first element / that pair / empty). One genuine defect is recorded as a known '
+             'finding (bound value == MIN_RAM_SIGNED); inputs outside that class are proved. NOT covered: btree/brie/default transparency and '
+             'closure maintenance (see C28/C29).',
+        note='iterators abstracted to a ghost range descriptor; sds.nodeExists/contains uninterpreted; caller encoding taken from static facts on '
+             'Generator.cpp/Index.h re-checked each run',
+        technique='CBMC function contracts (DFCC) on extracted C++ member functions, full-domain symbolic inputs, native replay on the real header',
+        design='DESIGN.md §3 C08'),
 }
 
 NA_PENDING = 'not claimed yet: the contract unit planned in DESIGN.md §3 has not been built'
